@@ -1344,6 +1344,17 @@ func vmDispNarrow(info *types.Info, ev []vmEv, extraVals, extraOthers []ast.Expr
 // handles, also when the clause is reached through several dispatch functions.
 func vmUnitOf(info *types.Info, tops map[token.Pos]bool, p *vmPath) string {
 	for _, e := range p.ev {
+		if e.K == evTypeCase && e.Sw != nil && tops[e.Sw.Pos()] {
+			// a type switch over the node types standing for a kind switch
+			if e.Vals == nil {
+				return "default"
+			}
+			var v []string
+			for _, k := range vmTypeCaseConsts[e.Pos] {
+				v = append(v, k.Name())
+			}
+			return "case " + strings.Join(v, ",")
+		}
 		if e.K == evCase && !e.Select && tops[e.Pos] {
 			if e.Pos == vmDispRootPos && len(vmContSwitchPos) > 0 {
 				set, order, explicit, _ := vmDispNarrow(info, p.ev, nil, nil, false)
@@ -1383,7 +1394,138 @@ func vmTopPosSet(c *Ctx, fn *vmFn) map[token.Pos]bool {
 	for _, sw := range vmTopSwitches(c, fn.info, fn.fd.Body) {
 		m[sw.Pos()] = true
 	}
+	for _, sw := range vmKindTypeSwitches(c, fn) {
+		m[sw.Pos()] = true
+	}
 	return m
+}
+
+// A statement-level type switch over a node interface is a kind switch in
+// another notation when the interface has exactly one parameterless method
+// with an enum result (`Kind()`) and every type listed in a clause implements
+// it as `return CONSTANT`: `case ast.AnalyzedForStatement:` is then the
+// clause `case ForStatementKind`. The clause names are registered by clause
+// position for vmUnitOf.
+var (
+	vmTypeCaseConsts  = map[token.Pos][]*types.Const{}
+	vmKindTypeSwCache = map[*ast.FuncDecl][]*ast.TypeSwitchStmt{}
+)
+
+func vmKindTypeSwitches(c *Ctx, fn *vmFn) []*ast.TypeSwitchStmt {
+	if out, ok := vmKindTypeSwCache[fn.fd]; ok {
+		return out
+	}
+	var out []*ast.TypeSwitchStmt
+	for _, s := range fn.fd.Body.List {
+		if l, ok := s.(*ast.LabeledStmt); ok {
+			s = l.Stmt
+		}
+		ts, ok := s.(*ast.TypeSwitchStmt)
+		if !ok {
+			continue
+		}
+		// the subject: x.(type) or v := x.(type)
+		var subj ast.Expr
+		switch a := ts.Assign.(type) {
+		case *ast.ExprStmt:
+			if ta, ok := a.X.(*ast.TypeAssertExpr); ok {
+				subj = ta.X
+			}
+		case *ast.AssignStmt:
+			if len(a.Rhs) == 1 {
+				if ta, ok := a.Rhs[0].(*ast.TypeAssertExpr); ok {
+					subj = ta.X
+				}
+			}
+		}
+		if subj == nil || fn.info.TypeOf(subj) == nil {
+			continue
+		}
+		iface, ok := fn.info.TypeOf(subj).Underlying().(*types.Interface)
+		if !ok {
+			continue
+		}
+		var kindM *types.Func
+		n := 0
+		for i := 0; i < iface.NumMethods(); i++ {
+			m := iface.Method(i)
+			sig := m.Type().(*types.Signature)
+			if sig.Params().Len() == 0 && sig.Results().Len() == 1 && c.EnumOf(sig.Results().At(0).Type()) != nil {
+				kindM = m
+				n++
+			}
+		}
+		if n != 1 {
+			continue
+		}
+		names := map[token.Pos][]*types.Const{}
+		good := true
+		for _, cl := range ts.Body.List {
+			cc := cl.(*ast.CaseClause)
+			var ks []*types.Const
+			for _, te := range cc.List {
+				t := fn.info.TypeOf(te)
+				if t == nil {
+					good = false
+					break
+				}
+				obj, _, _ := types.LookupFieldOrMethod(t, true, kindM.Pkg(), kindM.Name())
+				mf, _ := obj.(*types.Func)
+				decl := vmDeclIndex(c).of(mf)
+				if decl == nil {
+					good = false
+					break
+				}
+				res := vmExprBodied(decl)
+				k := (*types.Const)(nil)
+				if res != nil {
+					k = ConstOf(decl.info, ast.Unparen(res))
+				}
+				if k == nil {
+					good = false
+					break
+				}
+				ks = append(ks, k)
+			}
+			if !good {
+				break
+			}
+			names[cc.Pos()] = ks
+		}
+		if !good {
+			continue
+		}
+		for p, ks := range names {
+			vmTypeCaseConsts[p] = ks
+		}
+		out = append(out, ts)
+	}
+	vmKindTypeSwCache[fn.fd] = out
+	return out
+}
+
+// vmKindClauses: the bodies of the clauses for kind constant k in the
+// statement-level kind switches of fn, written as a switch over the kind or as
+// a type switch over the node types.
+func vmKindClauses(c *Ctx, fn *vmFn, k *types.Const) (pos token.Pos, bodies [][]ast.Stmt) {
+	for _, sw := range vmTopSwitches(c, fn.info, fn.fd.Body) {
+		if cl := vmClauseOf(fn.info, sw, k); cl != nil {
+			pos = cl.Pos()
+			bodies = append(bodies, cl.Body)
+		}
+	}
+	for _, ts := range vmKindTypeSwitches(c, fn) {
+		for _, cl := range ts.Body.List {
+			cc := cl.(*ast.CaseClause)
+			for _, x := range vmTypeCaseConsts[cc.Pos()] {
+				if x == k {
+					pos = cc.Pos()
+					bodies = append(bodies, cc.Body)
+				}
+			}
+		}
+	}
+	return
 }
 
 // vmClauseOf returns the clause of a top-level switch labelled by constant k.
